@@ -14,6 +14,7 @@ import DecimalModel.DecOps
 import DecimalModel.DivRec
 import DecimalModel.Radix
 import DecimalModel.AsmRoutines
+import DecimalModel.AsmRoutinesBig
 
 namespace Driver
 open Decimal Decimal.L0 Decimal.Gen
@@ -65,7 +66,7 @@ def kernVec (name : String) (s r : Nat) (x y : List Nat) : Option ((List Nat × 
   | _ => none
 
 /-- The same kernel executed by the Lean model of the REGENERATED assembly (tools/gen asm.go →
-    Gen/Asm.lean, run by AsmSem): compared with what the CPU returned, this validates the
+    Gen/Asm.lean and Gen/AsmBig.lean, run by AsmSem): compared with what the CPU returned, this validates the
     translator's meaning of every mnemonic on every run. `none` = shape not executed here. -/
 def leanAsmVec (name shape : String) (s r : Nat) (x y : List Nat) : Option (Option (List Nat × Nat)) :=
   open Decimal.Asm Decimal.Gen.Asm in
@@ -80,6 +81,7 @@ def leanAsmVec (name shape : String) (s r : Nat) (x y : List Nat) : Option (Opti
     | "mulAdd10VWW" => some (asm_mulAdd10VWW x s r)
     | "addMul10VVW" => some (asm_addMul10VVW y x s)
     | "div10VWW" => some (asm_div10VWW x s r)
+    | "divWVW" => some (asm_divWVW x r s)   -- arith_amd64.s (Gen/AsmBig.lean); s = y, r = xn
     | _ => none
   else if shape == "inplace" then
     match name with
@@ -91,6 +93,7 @@ def leanAsmVec (name shape : String) (s r : Nat) (x y : List Nat) : Option (Opti
     | "shr10VU" => some (asm_inplace .shr10VU_entry x [s])
     | "mulAdd10VWW" => some (asm_inplace .mulAdd10VWW_entry x [s, r])
     | "div10VWW" => some (asm_inplace .div10VWW_entry x [s, r])
+    | "divWVW" => some (asm_divWVW_inplace x r s)
     | _ => none
   else none
 
